@@ -979,8 +979,14 @@ def check_bonferroni(ctx):
     # VERD-AGG on the result classes
     mod = program.module(BON)
     n_agg = 0
+    seen_meths = set()
     for klass in mod.classes.values():
-        boolm = klass.methods.get('__bool__')
+        # the concrete result classes: methods found through the bases too
+        # (a common base class may hold __bool__ / oracles for both)
+        if not any(klass.name.startswith(pfx) for pfx in (
+                'TestResultBonferroni', 'TestResultHolmBonferroni')):
+            continue
+        boolm = program.find_method(klass, '__bool__')
         if boolm is None or 'TestResult' not in ' '.join(
                 program.base_names(klass)):
             continue
@@ -989,7 +995,7 @@ def check_bonferroni(ctx):
             return (isinstance(expr, ast.Attribute) and
                     'reject' in expr.attr) or (isinstance(expr, ast.Name)
                                                and expr.id in loopvars)
-        for meth in (boolm, klass.methods.get('oracles')):
+        for meth in (boolm, program.find_method(klass, 'oracles')):
             if meth is None:
                 continue
             for ret in _returns(meth):
